@@ -218,6 +218,27 @@ func c09History(c *Ctx, cs Case, prop string) {
 				}
 				db.AppendList(sl)
 				class = "ok"
+			case "LH", "DH":
+				// AppendList (LH) / AppendDatabase (DH) of a hand-built, well-formed list that carries a
+				// SignatureHeader: f = op, type, signature size, header, entries
+				hdr, size, es := unhx(f[3]), atoi(f[2]), splitSigs(f[4])
+				sl := &signature.SignatureList{
+					SignatureType:   guidFromWire(unhx(f[1])),
+					ListSize:        uint32(28 + len(hdr) + len(es)*size),
+					HeaderSize:      uint32(len(hdr)),
+					Size:            uint32(size),
+					SignatureHeader: append([]byte{}, hdr...),
+				}
+				for _, e := range es {
+					sl.Signatures = append(sl.Signatures, signature.SignatureData{Owner: guidFromWire(e[0]), Data: append([]byte{}, e[1]...)})
+				}
+				if f[0] == "LH" {
+					db.AppendList(sl)
+				} else {
+					other := signature.SignatureDatabase{sl}
+					db.AppendDatabase(&other)
+				}
+				class = "ok"
 			case "LA":
 				// list-level AppendBytes on a list that is part of the database
 				i := atoi(f[1])
@@ -236,6 +257,14 @@ func c09History(c *Ctx, cs Case, prop string) {
 		if panicked {
 			fail(i, "panic: "+pmsg, "panic", "return", "")
 			return
+		}
+		if (f[0] == "A" || f[0] == "R") && class == "ok" {
+			for _, l := range *db { // distribution only: edits that reached a list with a signature header
+				if l.HeaderSize > 0 && hx(wireGUID(l.SignatureType)) == f[1] {
+					c.Class("history/" + f[0] + "-ok-with-header-list-of-type")
+					break
+				}
+			}
 		}
 		enc := db.Bytes()
 		if answer != "" {
@@ -330,13 +359,18 @@ func c09History(c *Ctx, cs Case, prop string) {
 				if answer != fmt.Sprint(all) {
 					fail(i, "Exists disagrees with the entry collection", answer, fmt.Sprint(all), "")
 				}
-			case "L":
+			case "L", "LH", "DH":
 				exp := append([]triple{}, before...)
-				for _, e := range splitSigs(f[3]) {
+				for _, e := range splitSigs(f[len(f)-1]) {
 					exp = append(exp, triple{f[1], hx(e[0]), hx(e[1])})
 				}
 				if !sameTriples(exp, abs) {
 					fail(i, "AppendList must add the list's entries at the end", absStr(abs), absStr(exp), "")
+				}
+				if f[0] != "L" {
+					if len(lists) == 0 || lists[len(lists)-1].hdr != f[3] {
+						fail(i, "AppendList must keep the list's signature header", goDbStr(*db), f[3], "")
+					}
 				}
 			case "E":
 				if !sameTriples(before, abs) {
@@ -449,7 +483,7 @@ func genHistory(c *Ctx, u *c09Universe, maxLen int) Case {
 				}
 			}
 		}
-		switch k := c.Rng.Intn(20); {
+		switch k := c.Rng.Intn(21); {
 		case k < 8:
 			ops = append(ops, fmt.Sprintf("A,%s,%s,%s", hx(t), hx(o), hx(d)))
 			recent = append(recent, [3][]byte{t, o, d})
@@ -498,6 +532,37 @@ func genHistory(c *Ctx, u *c09Universe, maxLen int) Case {
 			recent = append(recent, [3][]byte{lt, o, dd})
 		case k < 19:
 			ops = append(ops, "E")
+		case k == 20:
+			// AppendList / AppendDatabase of a hand-built list that carries a non-empty SignatureHeader
+			// (HeaderSize > 0). Only types that the specification defines but the decoder does not
+			// implement can hold one, so such a list never comes out of ReadSignatureDatabase or
+			// NewSignatureList. Later operations are steered towards it: its own entry (duplicate
+			// append, remove) and new entries of the same type and size (database Append lands in it).
+			lt := [][]byte{tSHA1, tSHA384}[c.Rng.Intn(2)]
+			dd := d
+			if der, isPem := u.pems[hx(dd)]; isPem {
+				dd = der
+			}
+			o2 := u.owners[0]
+			if bytes.Equal(o, o2) {
+				o2 = u.owners[1]
+			}
+			es := []string{hx(o) + ":" + hx(dd)}
+			recent = append(recent, [3][]byte{lt, o, dd})
+			for _, x := range u.data {
+				if len(x) == len(dd) && !bytes.Equal(x, dd) {
+					if c.Rng.Intn(2) == 0 {
+						es = append(es, hx(o)+":"+hx(x))
+					}
+					recent = append(recent, [3][]byte{lt, o2, x})
+					break
+				}
+			}
+			if c.Rng.Intn(3) == 0 {
+				es = append(es, hx(o2)+":"+hx(dd))
+			}
+			recent = append(recent, [3][]byte{lt, o2, dd})
+			ops = append(ops, fmt.Sprintf("%s,%s,%d,%s,%s", []string{"LH", "DH"}[c.Rng.Intn(2)], hx(lt), len(dd)+16, hx(randBytes(c, 1+c.Rng.Intn(12))), strings.Join(es, "+")))
 		default:
 			// a list built through the list-level API with certificates of two different lengths
 			if r := c.Rng.Intn(6); r == 5 {
@@ -602,8 +667,8 @@ func c09Gen(c *Ctx) {
 
 func init() {
 	register("C09", &PropDef{
-		Rule:   "random histories of append / remove / BytesExists / Exists / AppendList / encode-decode over types {X509, SHA256, SHA1 (valid, undecodable), unknown GUID} x 2 owners x {two hashes, 31- and 33-byte strings, cert A DER/PEM/PEM behind a text preamble, cert B (|B|=|A|), cert C DER/PEM (|C|!=|A|), 20 bytes}, started from empty or from a decoded well-formed stream; operands are biased towards recently used triples. Non-trivial: at least two operations of at least two kinds; distinct = distinct histories.",
-		Assume: []string{"lists handed to AppendList are fresh, well-formed and duplicate-free (slice aliasing between two databases is outside the model); an empty one reproduces known finding F20", "a decoded start database has no duplicate entry inside a list"},
+		Rule:   "random histories of append / remove / BytesExists / Exists / AppendList / AppendList and AppendDatabase of a hand-built list with a 1..12-byte SignatureHeader (HeaderSize > 0; types SHA1 / SHA384, which only a caller can build; later appends and removes are steered into that list) / encode-decode over types {X509, SHA256, SHA1 (valid, undecodable), unknown GUID} x 2 owners x {two hashes, 31- and 33-byte strings, cert A DER/PEM/PEM behind a text preamble, cert B (|B|=|A|), cert C DER/PEM (|C|!=|A|), 20 bytes}, started from empty or from a decoded well-formed stream; operands are biased towards recently used triples. Non-trivial: at least two operations of at least two kinds; distinct = distinct histories.",
+		Assume: []string{"lists handed to AppendList / AppendDatabase are fresh, well-formed (ListSize = 28 + HeaderSize + n*SignatureSize, HeaderSize = len(SignatureHeader)) and duplicate-free (slice aliasing between two databases is outside the model); an empty one reproduces known finding F20", "a decoded start database has no duplicate entry inside a list"},
 		Eval:   c09Eval,
 		Gen:    c09Gen,
 	})
